@@ -815,6 +815,12 @@ func (u *Unit) mapLoad(st *State, t types.Type, ref, key string) (*Val, string) 
 	ok := app("select", u.mapDom(st, t, ref), key)
 	raw := app("select", u.mapVal(st, t, ref), key)
 	zero := u.scalar(st, u.zeroVal(st, m.Elem()))
+	if (kindOf(m.Elem()) == kRef || isIface(m.Elem())) && !strings.Contains(ref+key, "!q") {
+		// the heap is closed: what an existing map holds (a reference, or an interface value and so possibly one)
+		// exists too. Stated per read, not as an axiom over the value array: arrays are shared by sort, and an
+		// int-valued map of the same sorts must not be constrained.
+		st.assumeFact(tImp(app("<=", ref, st.wm), app("<=", raw, st.wm)))
+	}
 	return u.fromScalar(st, tIte(ok, raw, zero), m.Elem()), ok
 }
 
